@@ -36,7 +36,7 @@ func init() { register("c03", runC03) }
 const (
 	c03FileSize  = 1 << 16
 	c03Watchdog  = 5 * time.Second
-	c03CaseLimit = 60 * time.Second
+	c03CaseLimit = 15 * time.Second
 )
 
 // c03Byte is the content of file j at position pos.
